@@ -219,8 +219,13 @@ MultiplePredecessors findAllVertexPredecessors(const Graph<EdgeLabel> &graph,
         for (const VertexIndex &neighbour :
              graph.getOutNeighbours(currentVertex)) {
             if (!processedVertices[neighbour]) {
-                verticesToProcess.push(neighbour);
                 auto newPathLength = shortestPaths[currentVertex] + 1;
+
+                // A vertex enters the queue only when it is first discovered
+                if (shortestPaths[neighbour] == BASEGRAPH_VERTEX_MAX) {
+                    shortestPaths[neighbour] = newPathLength;
+                    verticesToProcess.push(neighbour);
+                }
 
                 // if paths are same length and vertex not added
                 // newPathLength < shortestPaths[neighbour] because
